@@ -1,7 +1,7 @@
 (** C45 correspondence: Model/OntId.v replayed on recorded histories of the native ONT ID contract.
     One case = one history on a fresh store: the address of every pool key, the id tokens that
-    encodeID accepts and those account.VerifyID accepts, then per step the transaction's signer
-    addresses, the operation (as the contract parses its bytes), whether the implementation
+    encodeID accepts and those account.VerifyID accepts, then per step whether the call ran
+    below the new-ONT-ID height, the transaction's signer addresses, the operation (as the contract parses its bytes), whether the implementation
     accepted it and the addressed identity's record as read from the store afterwards; the
     history ends with the records of all identities of the run. *)
 From Coq Require Import List Bool NArith.
@@ -10,7 +10,7 @@ From Ont Require Export Lib.CorrLib Model.OntId.
 Local Open Scope N_scope.
 Open Scope bool_scope.
 
-Record stepc := mkStep { st_sig : list addr; st_op : op; st_ok : bool; st_rec : idrec }.
+Record stepc := mkStep { st_lg : bool; st_sig : list addr; st_op : op; st_ok : bool; st_rec : idrec }.
 
 Inductive case :=
   CHist (kaddr : list N) (ids_ok ids_valid : list id) (steps : list stepc) (final : list (id * idrec)).
@@ -82,7 +82,7 @@ Section Replay.
     match l with
     | [] => fin s
     | st :: l' =>
-        match c_step s (st_sig st) (st_op st) with
+        match c_step (st_lg st) s (st_sig st) (st_op st) with
         | Some s' => st_ok st && rec_eqb (s' (target (st_op st))) (st_rec st) && steps_ok s' l' fin
         | None => negb (st_ok st) && rec_eqb (s (target (st_op st))) (st_rec st) && steps_ok s l' fin
         end
@@ -103,7 +103,7 @@ Section Diag.
     match l with
     | [] => None
     | st :: l' =>
-        match c_step kaddr ids_ok ids_valid s (st_sig st) (st_op st) with
+        match c_step kaddr ids_ok ids_valid (st_lg st) s (st_sig st) (st_op st) with
         | Some s' => if st_ok st && rec_eqb (s' (target (st_op st))) (st_rec st)
                      then first_bad s' l' (S n) else Some n
         | None => if negb (st_ok st) && rec_eqb (s (target (st_op st))) (st_rec st)
